@@ -10,6 +10,12 @@ correspondence : scale_rows / scale_columns (CSR, CSC, BSR; COO through the CSR 
                  breakdown_flag of every call (direct calls with initial_guess, every restart cycle of
                  approximate_spectral_radius, the call inside condest) vs the Lean model Model/ExtC19SArnoldi.lean run in
                  binary64 (op ext_c19_arnoldi), tolerance 200 eps prod_j (1 + ||A||_2 / H[j+1, j]).
+                 (E52) the same with complex data (conjugated inner products, both branches; op ext_c19t_arnoldi, binary64 pairs);
+                 approximate_spectral_radius as a whole (argument checks, cast and normalisation of initial_guess, every pass of
+                 the restart loop: H, max_index, theta, error, the stopping decisions, the restart vector, the returned value and
+                 vector) vs the model C19T.asrVec fed with the LAPACK eigenpairs of every pass as a verified oracle (op ext_c19t_asr);
+                 condest (both branches) vs C19T.condestVec (op ext_c19t_condest); cond vs C19T.condCert on the singular triples
+                 of scipy.linalg.svd, verified by the model (op ext_c19t_cond).
 search         : every utility vs an independent dense NumPy statement of its definition (all formats,
                  copy semantics, caches, call histories); approximate_spectral_radius in [0.9 rho, rho] on
                  Hermitian matrices; condest / cond vs numpy.linalg.cond(A, 2).
@@ -38,20 +44,33 @@ META = {
             'breakdown, scales 2e-10 .. 50 so that the breakdown test itself is exercised) in dense / CSR / CSC, symmetric flag '
             'on and off (also on for a few nonsymmetric matrices), maxiter 1 .. n + 2 and 15 / 25, restart 0 .. 5, given and '
             'random start vectors; one case per recorded call of _approximate_eigenvalues, non-trivial when n >= 2 and H has '
-            '>= 2 columns',
+            '>= 2 columns; '
+            'E52 part: n = 1..10, complex Hermitian / HPD / few distinct eigenvalues / general complex / i * Hermitian and real '
+            'symmetric / general matrices (the latter produce complex restart vectors), scales 2e-10 .. 50, dense / CSR / CSC; direct '
+            'calls of _approximate_eigenvalues with complex start vectors (both branches), approximate_spectral_radius with '
+            'maxiter 1..15 (also 0, -1), restart 0..5 (also negative), tol 1e-1..1e-8, real / complex / wrongly sized / absent '
+            'initial_guess, return_vector on and off, condest (both branches, maxiter 1 .. 25) and cond; one case per call of the '
+            'public function, non-trivial when n >= 2',
     'search_only': ['approximate_spectral_radius >= 0.9 rho (depends on the random start vector; checked for the default or '
                     'stronger maxiter / restart / tol only)',
                     'approximate_spectral_radius <= rho (1 + 1e-10) on the real code in binary64: since E39 the exact-arithmetic '
                     'statement is a theorem about the executable model of the Krylov loop (arnoldi_model_ritz_le_rho: the model '
                     'basis is orthonormal, H = V^T A V, the hypotheses of ritz_le_rho are discharged, every Ritz value of every '
-                    'restart cycle is <= rho for real symmetric A) and the loop is tied to the code by the binary64 correspondence; '
+                    'restart cycle is <= rho for real symmetric A; E52: carnoldi_model_estimate_le for complex Hermitian A and '
+                    'asr_model_estimate_le for the value the restart loop returns) and the loop is tied to the code by the binary64 '
+                    'correspondence; '
                     'what stays search-only is the effect of rounding (loss of orthogonality: the known finding) and the '
                     'eigenvalues of the small Hessenberg matrix, which are LAPACK\'s (scipy.linalg.eig, trusted)',
-                    'the restart logic of approximate_spectral_radius (choice of the restart vector V W[:, argmax], stopping '
-                    'test on |H[m, m-1] W[m-1, argmax]| -- arnoldi_model_residual says this is the residual norm of the Ritz pair) '
-                    'is not modelled: the start vector of every cycle is read off the real run and fed to the model',
-                    'complex Hermitian matrices and the complex restart vectors that nonsymmetric matrices produce are outside the '
-                    'Krylov model (real scalars only); they are covered by the search part only',
+                    'the eigen-decomposition of the small Hessenberg matrix is LAPACK\'s (scipy.linalg.eig): since E52 the restart '
+                    'logic of approximate_spectral_radius and condest are modelled (C19T.asr / condestO) with the eigenpairs of every '
+                    'pass as an oracle input that the model verifies (|H y - theta y| <= tolerance |y|, y != 0) -- that the recorded '
+                    'list contains ALL eigenvalues of H is not checked (a missing one could only lower the estimate); on ties of the '
+                    'largest moduli (complex-conjugate pairs) the index the run picked is taken from the run and only verified to be '
+                    'a maximiser',
+                    'complex Lanczos branch (symmetric=True with complex Hermitian input): compared with the model in binary64, no '
+                    'theorem (lanczos_eq_arnoldi is proved for real scalars only); condest(symmetric=True) likewise',
+                    'cond: the singular triples come from the same LAPACK driver the code calls (scipy.linalg.svd); the model verifies '
+                    'them (A v = sigma u, U and V unitary, sigma real) and takes max / min',
                     'nonsymmetric matrices: nothing is promised by the property; the theorems then bound the real Ritz values by the '
                     'numerical range, whose radius can exceed rho (example in Props/C19.lean: nilpotent 2 x 2 matrix, estimate 12/25)',
                     'condest == cond_2 when Arnoldi/Lanczos completes (tolerance 1e-6; observed 1e-11), cond == numpy.linalg.cond',
@@ -80,7 +99,16 @@ META = {
                 'spectral radius / condition estimate (E39): arnoldi_model_* / lanczos_* / vec_* are exact-arithmetic statements '
                 '(ordered field, exact square root, definite form) about the loop model, for real scalars; the symmetric branch is '
                 'proved equal to the general branch for symmetric operators (lanczos_eq_arnoldi); "all eigenvalues of the symmetric '
-                'tridiagonal H are real" and the lower bound 0.9 rho are not proved'],
+                'tridiagonal H are real" and the lower bound 0.9 rho are not proved',
+                'E52 (complex Hermitian input, restart loop, condest / cond): carnoldi_model_* / cvec_arnoldi_* (pairs Cx F over an '
+                'ordered field with exact square root: orthonormal basis, H = V^H A V Hermitian tridiagonal, every Ritz value is a '
+                'Rayleigh quotient, real for Hermitian A, within all Rayleigh bounds, |theta| <= rho and abs(theta) as computed <= rho); '
+                'asr_model_spec / asr_model_estimate_le / cvec_asr_estimate_le (every pass of the restart loop is a Krylov run from a '
+                'start vector != 0, every returned estimate is |theta| of a verified Ritz pair, hence <= rho for Hermitian A; oracle '
+                'verification tolerance zero); condest_model_le_cond / condest_le_cond_models (Ritz values of A^H A lie in '
+                '[smin^2, smax^2], so condest <= smax / smin, and an accepted singular-value certificate yields exactly such '
+                'smin, smax: condest <= cond between the two executable models); not proved: convergence (condest == cond when the '
+                'Krylov space is exhausted), the lower bound 0.9 rho, anything about rounding'],
     'assumptions': ['binary64 rounding is outside the model: exact comparison on dyadic inputs, tolerance 1e-9 where a quotient '
                     'or square root is not dyadic; complex moduli equal or within 1e-12 of a threshold are not judged',
                     'block pseudo-inverses (Jacobi SVD kernel / LAPACK gelss) are compared with the exact Moore-Penrose inverse '
@@ -92,7 +120,14 @@ META = {
                     'within 200 eps prod_{i<j} (1 + ||A||_2 / H[i+1, i]) (x ||A||_2 for H) for column / vector j; once that bound '
                     'exceeds 1e-6 only the shapes are compared; the flag is not compared when the last H[m, m-1] is within 10 bound '
                     '||A|| of the breakdown tolerance 1e6 eps; the vector appended at breakdown (normalised round-off) is compared '
-                    'by its norm only'],
+                    'by its norm only',
+                    'E52 models vs code: same tolerances as E39, the error bound of a pass is multiplied through the passes of the '
+                    'restart loop (start-vector error x growth of the previous pass); the oracle eigenpairs are accepted by the model '
+                    'when |H y - theta y| <= (10 bound + 1e-9) ||A|| |y|; stopping decisions are not compared when '
+                    '|error|/|theta| is within 100 bound of tol or H[m, m-1] within 10 bound ||A|| of the breakdown tolerance; '
+                    'pair division of the model is a conj(b) / |b|^2 (NumPy uses Smith\'s formula: last-bit differences, covered by '
+                    'the tolerance); returned values compared to 1e-12 relative; cond: certificate defect <= (1e-11 n (1 + ||A||))^2, '
+                    'not judged when sigma_min <= 1e-8 sigma_max'],
 }
 
 FK_DIAG_NONCSR = 'filter-rows-diagonal-non-csr-noop'
@@ -783,24 +818,25 @@ def gen_filter(rng, t):
     return c, feats | {'filter:' + kind}
 
 
-def ref_filter_max(D, theta, axis):
+def ref_filter_max(D, theta, axis, band=False):
     """-> (reference, don't-care mask).  Complex moduli are irrational: an entry whose modulus is within
-    1e-12 (relative) of the threshold may go either way in floating point; real data: exact, no slack"""
+    1e-12 (relative) of the threshold may go either way in floating point; real data: exact, no slack
+    (band=True: real data that went through a rounded rescaling gets the same slack)"""
     mx = np.abs(D).max(axis=axis, keepdims=True) if D.size else np.zeros((D.shape[0], 1))
     thr = theta * mx * np.ones_like(np.abs(D))
     keep = np.abs(D) >= thr
-    free = (np.abs(np.abs(D) - thr) <= 1e-12 * (thr + 1e-300)) & (D != 0) if np.iscomplexobj(D) else np.zeros(D.shape, dtype=bool)
+    free = (np.abs(np.abs(D) - thr) <= 1e-12 * (thr + 1e-300)) & (D != 0) if (np.iscomplexobj(D) or band) else np.zeros(D.shape, dtype=bool)
     return np.where(keep, D, 0), free
 
 
-def ref_filter_diag(D, theta, lump):
+def ref_filter_diag(D, theta, lump, band=False):
     R = D.copy()
     n, m = D.shape
     free = np.zeros(D.shape, dtype=bool)
     for i in range(n):
         d = abs(D[i, i]) if i < m else 0.0
         for j in range(m):
-            if np.iscomplexobj(D) and D[i, j] != 0 and abs(abs(D[i, j]) - theta * d) <= 1e-12 * theta * d:
+            if (np.iscomplexobj(D) or band) and D[i, j] != 0 and abs(abs(D[i, j]) - theta * d) <= 1e-12 * theta * d:
                 free[i, :] = True          # rounding decides: the whole row (its lumped diagonal too) is not judged
             if abs(D[i, j]) < theta * d and (j != i or not lump):
                 if lump:
@@ -1856,8 +1892,14 @@ def _eig_quality(call, nA):
 
 
 def _oracle(call):
+    """eigenvalues and eigenvectors of one pass; when the two largest moduli tie to 1e-12 (complex-conjugate pairs:
+    NumPy's vectorised abs may differ in the last bit between the two) the max_index of the run is passed as a hint,
+    which the model accepts only if it is a maximiser up to the tie tolerance"""
     m = call['m']
-    return ';'.join([_cbits(call['ev'])] + [_cbits(call['evect'][:, k]) for k in range(m)])
+    aev = np.abs(call['ev'])
+    mi = int(aev.argmax())
+    tie = m >= 2 and np.isfinite(aev).all() and np.sort(aev)[-2] >= aev[mi] * (1 - 1e-12)
+    return (f'{mi}@' if tie else '') + ';'.join([_cbits(call['ev'])] + [_cbits(call['evect'][:, k]) for k in range(m)])
 
 
 def _e52_line(c, calls, op):
@@ -1880,7 +1922,7 @@ def _e52_line(c, calls, op):
         else:
             gv = _decv(guess)
         orc = '|'.join(_oracle(cl) for cl in calls) if calls else '-'
-        line = (f'ext_c19t_asr {_cmat(M)} {btol} {_cbits([c["tol"]])} {_cbits([vt * vt])} {c["maxiter"]} {c["restart"]} '
+        line = (f'ext_c19t_asr {_cmat(M)} {btol} {_cbits([c["tol"]])} {_cbits([vt * vt])} {_cbits([1e-11 * nA])} {c["maxiter"]} {c["restart"]} '
                 f'{0 if c["complex"] else 1} {_cbits(gv)} {orc}')
         return line, {'nA': nA, 'bound': bound}
     if c['mode'] == 'condest':
@@ -2074,12 +2116,637 @@ def part_e52(ctx, N):
 
 
 # ------------------------------------------------------------------------------------------------
+# part J (search only): the same statements far away from unit scale and on every stored BSR block shape.
+#   * every utility is homogeneous in its data, so the input (matrix, scaling vector, candidates, targets; single
+#     diagonal blocks) is multiplied by 2^-20 .. 2^-80 or 1e-5 .. 1e-12 and every statement is judged RELATIVE to the
+#     data's own magnitude (no absolute floor in any tolerance; 1 x 1 pseudo-inverses are 1/a exactly)
+#   * BSR input with stored blocks (R, C) in {1..4} x {1..4}, square or not, equal to the requested block size or not
+#     (a square matrix stored with rectangular blocks is a perfectly valid BSR matrix)
+# oracle: dense NumPy formulas (numpy.linalg.pinv / inv are scale-relative); no Lean model is asked
+# ------------------------------------------------------------------------------------------------
+
+W_SCALES = [2.0 ** -20, 2.0 ** -40, 2.0 ** -60, 2.0 ** -80, 1e-5, 1e-6, 1e-8, 1e-10, 1e-12]
+W_FACT = [1.0, 1.0, 0.75, 0.1, 3.3]
+
+
+def _wscale(rng, p_one=0.2):
+    return 1.0 if rng.random() < p_one else float(W_SCALES[int(rng.integers(0, len(W_SCALES)))])
+
+
+def _dyadic(s):
+    return float(np.frexp(s)[0]) == 0.5
+
+
+def _scaled_spec(spec, s):
+    out = dict(spec)
+    out['data'] = [[a * s, b * s] for a, b in spec['data']] if (spec['data'] and isinstance(spec['data'][0], list)) \
+        else [x * s for x in spec['data']]
+    return out
+
+
+def rclose(a, b, tol, ref=None):
+    """max |a - b| <= tol * max |b| (or tol * ref): relative to the data's own scale, no absolute floor"""
+    a, b = np.asarray(a), np.asarray(b)
+    if a.shape != b.shape:
+        return False
+    if a.size == 0:
+        return True
+    if not (np.isfinite(a).all() and np.isfinite(b).all()):
+        return False
+    sc = float(np.abs(b).max()) if ref is None else float(ref)
+    return bool(np.abs(a - b).max() <= tol * sc)
+
+
+def rclose_each(a, b, tol):
+    """|a_i - b_i| <= tol |b_i| for every entry"""
+    a, b = np.asarray(a), np.asarray(b)
+    if a.shape != b.shape:
+        return False
+    if not (np.isfinite(a).all() and np.isfinite(b).all()):
+        return False
+    return bool((np.abs(a - b) <= tol * np.abs(b)).all())
+
+
+def _wmat(rng, t, *, square=False, fmts=('csr', 'csc', 'bsr', 'coo'), cplx=None, diag=None, real_fmts=(), nmax=8, noncontig_unsorted_ok=False):
+    """random matrix in the given storage; BSR with every block shape (R, C) in {1..4}^2 -- also for square matrices"""
+    from math import lcm
+    fmt = fmts[t % len(fmts)]
+    cplx = bool(rng.random() < 0.3) if cplx is None else cplx
+    if fmt in real_fmts:
+        cplx = False
+    feats = {fmt, 'complex' if cplx else 'real'}
+    n = int(rng.integers(1, nmax + 1))
+    m = n if square else int(rng.integers(1, nmax + 1))
+    bs = None
+    if fmt == 'bsr':
+        R, C = int(rng.integers(1, 5)), int(rng.integers(1, 5))
+        if square:
+            n = m = lcm(R, C) * int(rng.integers(1, 3))
+        else:
+            n, m = R * int(rng.integers(1, 4)), C * int(rng.integers(1, 4))
+        bs = (R, C)
+        feats.add(f'bs{R}x{C}')
+        if n == m and R != C:
+            feats.add('square_matrix_rectangular_blocks')
+    dg = diag(rng, max(n, m), cplx) if diag is not None else None
+    D = rand_dense(rng, n, m, cplx, diag=dg)
+    unsorted = bool(rng.random() < 0.3)
+    dup = fmt == 'coo' and bool(rng.random() < 0.5)         # duplicates only where the storage format defines them as a sum
+    zeros = fmt != 'bsr' and bool(rng.random() < 0.2)
+    # unsorted BSR indices over non-contiguous block data: SciPy's bsr sort_indices() permutes the indices but not the data
+    # (reported); outside the scaling routines (which never sort) that combination is left out
+    noncontig = fmt == 'bsr' and bool(rng.random() < 0.2) and (noncontig_unsorted_ok or not unsorted)
+    spec = compress(rng, D, fmt, unsorted=unsorted, dup=dup, zeros=zeros, bs=bs, noncontig=noncontig)
+    for nm, f in (('unsorted', unsorted), ('duplicates', dup), ('explicit_zeros', zeros), ('noncontiguous_data', noncontig)):
+        if f:
+            feats.add(nm)
+    return spec, D, feats
+
+
+def _wfeat(*scales):
+    return {'scaled_input' if any(s != 1.0 for s in scales) else 'unit_scale'} | \
+           {('scale:2^k' if _dyadic(s) else 'scale:10^k') for s in scales if s != 1.0}
+
+
+# ---- generators ----
+
+def _gw_scale(rng, t):
+    spec, D, feats = _wmat(rng, t, real_fmts=('csc',), noncontig_unsorted_ok=True)
+    sA, sv = _wscale(rng), _wscale(rng)
+    which = 'rows' if (t // 4) % 2 == 0 else 'cols'
+    k = D.shape[0] if which == 'rows' else D.shape[1]
+    vc = bool(rng.random() < 0.3) and spec['complex']
+    v = rng.choice(SCAL, size=k).astype(complex if vc else float)
+    if vc:
+        v = v + 1j * rng.choice(SCAL[:6], size=k)
+    v = v * sv * float(rng.choice(W_FACT))
+    copy = bool(rng.random() < 0.5)
+    c = {'op': 'wide', 'sub': 'scale', 'A': _scaled_spec(spec, sA), 'which': which, 'v': _encv(v), 'copy': copy, 'scales': [sA, sv],
+         'vshape': str(rng.choice(['flat', 'column']))}
+    return c, feats | _wfeat(sA, sv) | {which}
+
+
+def _gw_diag(rng, t):
+    spec, D, feats = _wmat(rng, t, square=bool(rng.random() < 0.8), diag=_diag_gen)
+    s = _wscale(rng)
+    spec = _scaled_spec(spec, s)
+    if rng.random() < 0.15:
+        A = build(spec)
+        spec = {'fmt': 'dense', 'shape': list(A.shape), 'complex': spec['complex'], 'data': _encv(A.toarray())}
+        feats = {'dense', 'complex' if spec['complex'] else 'real'}
+    c = {'op': 'wide', 'sub': 'diag', 'A': spec, 'norm_eq': [0, 1, 2, False, True][int(rng.integers(0, 5))], 'inv': bool(rng.random() < 0.6),
+         'scales': [s]}
+    return c, feats | _wfeat(s) | {f'norm_eq={int(c["norm_eq"])}', f'inv={c["inv"]}'}
+
+
+def _gw_symresc(rng, t):
+    spec, D, feats = _wmat(rng, t, square=True, diag=_sq_diag, real_fmts=('csc',))
+    s = _wscale(rng)
+    copy = bool(rng.random() < 0.6)
+    return {'op': 'wide', 'sub': 'symresc', 'A': _scaled_spec(spec, s), 'copy': copy, 'scales': [s]}, feats | _wfeat(s) | {f'copy={copy}'}
+
+
+def _gw_filter(rng, t):
+    kind = ['rows', 'cols', 'diag', 'lump', 'trunc'][t % 5]
+    # the in-place diagonal rule is only defined for CSR / BSR (listed finding for the other formats)
+    fmts = ('csr', 'bsr') if kind in ('diag', 'lump') else ('csr', 'csc', 'bsr', 'coo')
+    spec, D, feats = _wmat(rng, t // 5, square=bool(rng.random() < 0.4), fmts=fmts)
+    s = _wscale(rng)
+    c = {'op': 'wide', 'sub': 'filter', 'kind': kind, 'A': _scaled_spec(spec, s), 'scales': [s]}
+    if kind == 'trunc':
+        c['k'] = int(rng.integers(0, 5))
+    else:
+        c['theta'] = float(rng.choice(THETAS))
+    return c, feats | _wfeat(s) | {'filter:' + kind}
+
+
+def _gw_block(rng, t):
+    from math import lcm
+    bs = int(rng.choice([1, 2, 3, 4, 2, 3, 4, 1, 5, 6, 7, 8]))
+    fmt = ['bsr', 'csr', 'bsr', 'csc', 'bsr', 'coo'][t % 6]
+    R = C = 1
+    base = bs
+    if fmt == 'bsr':
+        for _ in range(60):
+            R, C = int(rng.integers(1, 5)), int(rng.integers(1, 5))
+            u = rng.random()
+            if bs <= 4 and u < 0.25:
+                R = bs                 # only one of the two stored block dimensions equals the requested size
+            elif bs <= 4 and u < 0.5:
+                C = bs
+            base = lcm(bs, R, C)
+            if base <= 24:
+                break
+        else:
+            R, C, base = bs, bs, bs
+    n = base * int(rng.integers(1, max(1, 12 // base) + 1))
+    nb = n // bs
+    cplx = bool(rng.random() < 0.3)
+    singular = bool(rng.random() < 0.4)
+    D = _block_matrix(rng, bs, nb, cplx, singular)
+    uniform = bool(rng.random() < 0.6)
+    s0 = _wscale(rng)
+    sk = [s0 if uniform else _wscale(rng, 0.3) for _ in range(nb)]
+    for k in range(nb):
+        D[k * bs:(k + 1) * bs, :] *= sk[k] * float(rng.choice(W_FACT))
+    if fmt == 'bsr':
+        spec = compress(rng, D, 'bsr', bs=(R, C), unsorted=bool(rng.random() < 0.3), noncontig=bool(rng.random() < 0.15))
+    else:
+        spec = compress(rng, D, fmt, unsorted=bool(rng.random() < 0.3), dup=(fmt == 'coo' and rng.random() < 0.5))
+    fn = ['get_block_diag', 'scale_block_inverse'][(t // 6) % 2]
+    c = {'op': 'wide', 'sub': 'block', 'fn': fn, 'A': spec, 'bs': bs, 'inv': bool(rng.random() < 0.65), 'scales': sk,
+         'history': str(rng.choice(['single', 'single', 'inv_then_plain', 'twice', 'other_bs_first']))}
+    feats = {fmt, f'bs={bs}', fn, 'complex' if cplx else 'real', 'singular_blocks' if singular else 'regular_blocks'} | _wfeat(*sk)
+    if fmt == 'bsr':
+        feats |= {f'stored{R}x{C}', 'stored_rectangular' if R != C else 'stored_square',
+                  'stored==requested' if (R, C) == (bs, bs) else ('stored_rows==requested' if R == bs else
+                                                                  ('stored_cols==requested' if C == bs else 'stored!=requested'))}
+    return c, feats
+
+
+def _gw_filterop(rng, t):
+    cplx = bool(rng.random() < 0.3)
+    bsr = t % 3 != 0
+    rpb, cpb = (int(rng.integers(1, 5)), int(rng.integers(1, 5))) if bsr else (1, 1)
+    nbr, ncb = int(rng.integers(1, 5)), int(rng.integers(1, 5))
+    n, m = nbr * rpb, ncb * cpb
+    nd = int(rng.choice([1, 1, 2, 3]))
+    dens = float(rng.choice([0.4, 0.7, 1.0]))
+    PA = rng.random((nbr, ncb)) < dens
+    PC = rng.random((nbr, ncb)) < dens
+    if rng.random() < 0.3:
+        PC = PA.copy()
+    sA, sB, sF = _wscale(rng, 0.35), _wscale(rng, 0.1), _wscale(rng, 0.35)
+    if rng.random() < 0.3:
+        sF = sA * sB                         # targets of the size of A B (what the smoothers pass)
+    DA = rand_dense(rng, n, m, cplx, density=1.0) * np.kron(PA, np.ones((rpb, cpb))) * sA
+    DC = np.kron(PC, np.ones((rpb, cpb))) * rng.choice([1.0, 2.0, -1.0], size=(n, m))
+    B = rng.choice([1, 2, -1, 3, 0.5, 0, -2], size=(m, nd)).astype(complex if cplx else float)
+    Bf = rng.choice([1, 2, -1, 0, 4], size=(n, nd)).astype(complex if cplx else float)
+    if cplx:
+        B = B + 1j * rng.choice([0, 1, -1, 2], size=(m, nd))
+        Bf = Bf + 1j * rng.choice([0, 1, -1], size=(n, nd))
+    if rng.random() < 0.3:
+        B[:, 0] = 1
+    B = B * sB * float(rng.choice(W_FACT))
+    Bf = Bf * sF
+    fmt = 'bsr' if bsr else 'csr'
+    sa = compress(rng, DA.astype(complex if cplx else float), fmt, bs=(rpb, cpb))
+    sc = compress(rng, DC.astype(complex if cplx else float), fmt, bs=(rpb, cpb), zeros=bool(rng.random() < 0.2) and not bsr)
+    c = {'op': 'wide', 'sub': 'filterop', 'A': sa, 'C': sc, 'B': _encv(B), 'Bf': _encv(Bf), 'nd': nd, 'given': bool(rng.random() < 0.4),
+         'flat': bool(nd == 1 and rng.random() < 0.3), 'scales': [sA, sB, sF]}
+    return c, {fmt, f'nd={nd}', 'complex' if cplx else 'real', f'BtBinv_given={c["given"]}', f'blocks{rpb}x{cpb}'} | _wfeat(sA, sB, sF)
+
+
+def _gw_pinv(rng, t):
+    kind = ['py', 'core', 'py1', 'core', 'py'][t % 5]
+    cplx = bool(rng.random() < 0.3)
+    bs = 1 if kind == 'py1' else int(rng.integers(1, 9 if kind == 'py' else 7))
+    nb = int(rng.integers(1, 7))
+    dtype = None
+    if bs == 1 and kind != 'core' and rng.random() < 0.3:
+        dtype = 'complex64' if cplx else 'float32'
+    D = _block_matrix(rng, bs, nb, cplx, bool(rng.random() < 0.4))
+    blocks = np.array([D[k * bs:(k + 1) * bs, k * bs:(k + 1) * bs] for k in range(nb)])
+    uniform = bool(rng.random() < 0.5)
+    s0 = _wscale(rng, 0.1)
+    sk = [s0 if uniform else _wscale(rng, 0.2) for _ in range(nb)]
+    for k in range(nb):
+        blocks[k] *= sk[k] * float(rng.choice(W_FACT))
+    c = {'op': 'wide', 'sub': 'pinv', 'kind': 'py' if kind == 'py1' else kind, 'bs': bs, 'complex': cplx, 'blocks': _encv(blocks),
+         'trans': str(rng.choice(['T', 'F'])), 'dtype': dtype, 'scales': sk}
+    return c, {'pinv:' + c['kind'], f'bs={bs}', 'complex' if cplx else 'real'} | ({'dtype:' + dtype} if dtype else set()) | _wfeat(*sk)
+
+
+_GW = (_gw_scale, _gw_diag, _gw_symresc, _gw_filter, _gw_block, _gw_filterop, _gw_pinv, _gw_block, _gw_filterop, _gw_pinv, _gw_filter,
+       _gw_block)
+
+
+def gen_wide(rng, t):
+    c, feats = _GW[t % len(_GW)](rng, t // len(_GW))
+    return c, feats | {'wide:' + c['sub']}
+
+
+# ---- evaluation ----
+
+def _ew_scale(ctx, c, it):
+    U = _U()
+    A = build(c['A'])
+    fmt, which, copy = A.format, c['which'], c['copy']
+    v = _decv(c['v'])
+    D = A.toarray()
+    it.nontrivial = A.nnz >= 2
+    snap = snapshot(A)
+    fn = U.scale_rows if which == 'rows' else U.scale_columns
+    vv = v.reshape(-1, 1) if c.get('vshape') == 'column' else v
+    R = fn(A, vv, copy=copy)
+    ref = (v[:, None] * D) if which == 'rows' else (D * v[None, :])
+    if not sp.issparse(R) or R.format != fmt:
+        ctx.violation(f'scale_{which}: result format {getattr(R, "format", type(R).__name__)} for {fmt} input', c)
+        return
+    if not rclose(R.toarray(), ref, 1e-12):
+        ctx.violation(f'scale_{which}({fmt}, copy={copy}, scales {c["scales"]}) is not {"diag(v) A" if which == "rows" else "A diag(v)"} '
+                      f'(relative to the size of the product): expected {ref.tolist()} got {R.toarray().tolist()}', c)
+    if copy:
+        if snapshot(A) != snap:
+            ctx.violation(f'scale_{which}({fmt}, copy=True) modified its input', c)
+        elif shares(R, A):
+            ctx.violation(f'scale_{which}({fmt}, copy=True) returned a matrix that shares its data with the input', c)
+
+
+def _ew_diag(ctx, c, it):
+    U = _U()
+    spec = c['A']
+    cplx = spec['complex']
+    if spec['fmt'] == 'dense':
+        A = _decv(spec['data'], cplx).reshape(spec['shape'])
+        D = A.copy()
+    else:
+        A = build(spec)
+        D = A.toarray()
+    ne, inv = int(c['norm_eq']), c['inv']
+    it.nontrivial = np.count_nonzero(D) >= 2
+    if ne == 0:
+        ref = np.diag(D).copy()
+    elif ne == 1:
+        ref = np.diag(D.conj().T @ D)
+    else:
+        ref = np.diag(D @ D.conj().T)
+    if inv:
+        ref = np.array([0 if x == 0 else 1 / x for x in ref], dtype=ref.dtype)
+    d = np.asarray(U.get_diagonal(A, norm_eq=c['norm_eq'], inv=inv))
+    if d.shape != ref.shape or not rclose_each(d, ref, 1e-10):
+        ctx.violation(f'get_diagonal({spec["fmt"]}, norm_eq={c["norm_eq"]}, inv={inv}, scale {c["scales"]}): expected {ref.tolist()} got {d.tolist()} '
+                      f'(entrywise relative 1e-10)', c)
+    if sp.issparse(A) and not close(A.toarray(), D, 0):
+        ctx.violation('get_diagonal changed the value of its input', c)
+
+
+def _ew_symresc(ctx, c, it):
+    U = _U()
+    A = build(c['A'])
+    fmt, cplx, copy = A.format, c['A']['complex'], c['copy']
+    D = A.toarray()
+    n = D.shape[0]
+    it.nontrivial = A.nnz >= 2
+    d = np.diag(D)
+    s = np.sqrt(d) if cplx else np.sqrt(np.abs(d))
+    sinv = np.array([0 if d[i] == 0 else 1 / s[i] for i in range(n)], dtype=s.dtype)
+    ref = sinv[:, None] * D * sinv[None, :]
+    snap = snapshot(A)
+    Ds, Dsi, DAD = U.symmetric_rescaling(A, copy=copy)
+    if not (rclose_each(Ds, s, 1e-12) and rclose_each(Dsi, sinv, 1e-12) and rclose(DAD.toarray(), ref, 1e-12, ref=max(1e-300, np.abs(ref).max()))):
+        ctx.violation(f'symmetric_rescaling({fmt}, copy={copy}, scale {c["scales"]}) is not D^-1/2 A D^-1/2: expected {ref.tolist()} got '
+                      f'{DAD.toarray().tolist()}, D_sqrt {np.asarray(Ds).tolist()} (expected {s.tolist()}), D_sqrt_inv {np.asarray(Dsi).tolist()}', c)
+    else:
+        dd = np.diag(DAD.toarray())
+        want = np.where(d == 0, 0, d / np.where(d == 0, 1, np.abs(d)) if not cplx else 1)
+        if not close(dd, want, 1e-12):
+            ctx.violation(f'symmetric_rescaling (scale {c["scales"]}): the diagonal of the result is {dd.tolist()}, expected {np.asarray(want).tolist()}', c)
+    if (copy or fmt not in ('csr', 'csc', 'bsr')) and snapshot(A) != snap:
+        ctx.violation(f'symmetric_rescaling({fmt}, copy={copy}) modified its input', c)
+
+
+def _wfilt_equal(Rd, ref, free, D, whole=False):
+    """result == reference (relative to the largest entry of the matrix) except at don't-care positions"""
+    if Rd.shape != ref.shape:
+        return False
+    if not Rd.size:
+        return True
+    mx = float(np.abs(D).max()) * max(1, D.shape[1])
+    ok = np.abs(Rd - ref) <= 1e-12 * mx
+    alt = free if whole else free & ((np.abs(Rd - D) <= 1e-12 * mx) | (Rd == 0))
+    return bool((ok | alt).all())
+
+
+def _ew_filter(ctx, c, it):
+    U = _U()
+    A = build(c['A'])
+    fmt, kind = A.format, c['kind']
+    D = A.toarray()
+    n, m = D.shape
+    it.nontrivial = A.nnz >= 2
+    band = not _dyadic(c['scales'][0])
+    snap = snapshot(A)
+    if kind in ('rows', 'cols'):
+        theta = c['theta']
+        nm = 'filter_matrix_rows' if kind == 'rows' else 'filter_matrix_columns'
+        R = getattr(U, nm)(A, theta)
+        ref, free = ref_filter_max(D, theta, 1 if kind == 'rows' else 0, band=band)
+        if not sp.issparse(R) or R.format != fmt or R.shape != A.shape:
+            ctx.violation(f'{nm}: result {getattr(R, "format", type(R).__name__)} for {fmt} input', c)
+            return
+        if fmt == 'bsr' and tuple(R.blocksize) != tuple(A.blocksize):
+            ctx.violation(f'{nm}: BSR input with blocks {A.blocksize} came back with blocks {R.blocksize}', c)
+        Rd = R.toarray()
+        if not _wfilt_equal(Rd, ref, free, D):
+            ctx.violation(f'{nm}({fmt}, theta={theta}, scale {c["scales"]}) does not drop exactly the entries below theta * max: '
+                          f'expected {ref.tolist()} got {Rd.tolist()}', c)
+        if snapshot(A) != snap:
+            ctx.violation(f'{nm}({fmt}) modified its input', c)
+    elif kind in ('diag', 'lump'):
+        theta, lump = c['theta'], kind == 'lump'
+        ref, free = ref_filter_diag(D, theta, lump, band=band)
+        r = U.filter_matrix_rows(A, theta, diagonal=True, lump=lump)
+        if r is not None:
+            ctx.violation('filter_matrix_rows(diagonal=True) returned something (documented: in place, returns None)', c)
+        Rd = A.toarray()
+        if not _wfilt_equal(Rd, ref, free, D, whole=True):
+            ctx.violation(f'filter_matrix_rows({fmt}, theta={theta}, diagonal=True, lump={lump}, scale {c["scales"]}) did not filter its argument '
+                          f'in place by theta*|a_ii|: expected {ref.tolist()} got {Rd.tolist()}', c)
+        elif lump and not free.any() and not rclose(Rd.sum(1), D.sum(1), 1e-12, ref=max(1e-300, np.abs(D).max() * m)):
+            ctx.violation('filter_matrix_rows(lump=True) changed a row sum', c)
+    else:
+        k = c['k']
+        T = A.tocsr().copy()
+        T.sum_duplicates()
+        R = U.truncate_rows(A, k)
+        if not sp.issparse(R) or R.format != fmt or R.shape != A.shape:
+            ctx.violation(f'truncate_rows: result {getattr(R, "format", type(R).__name__)} for {fmt} input', c)
+            return
+        Rd = R.toarray()
+        for i in range(n):
+            stored = T.indices[T.indptr[i]:T.indptr[i + 1]].tolist()
+            if not trunc_ok(D[i], Rd[i], stored, k):
+                ctx.violation(f'truncate_rows({fmt}, k={k}, scale {c["scales"]}): row {i} = {D[i].tolist()} became {Rd[i].tolist()}', c)
+                break
+        if snapshot(A) != snap:
+            ctx.violation(f'truncate_rows({fmt}) modified its input', c)
+
+
+def _penrose(Ak, Xk, tol=1e-8):
+    """the four Moore-Penrose equations, each relative to the sizes of its own terms -> None | which one fails"""
+    na, nx = float(np.abs(Ak).max()), float(np.abs(Xk).max())
+    if na == 0:
+        return None if nx == 0 else 'pinv(0) != 0'
+    if not np.isfinite(Xk).all():
+        return 'not finite'
+    m = Ak.shape[0]
+    AX, XA = Ak @ Xk, Xk @ Ak
+    if np.abs(AX @ Ak - Ak).max() > tol * m * na * max(1.0, np.abs(AX).max()):
+        return 'A X A != A'
+    if np.abs(XA @ Xk - Xk).max() > tol * m * nx * max(1.0, np.abs(XA).max()):
+        return 'X A X != X'
+    if np.abs(AX - AX.conj().T).max() > tol * m * max(1.0, na * nx):
+        return 'A X not Hermitian'
+    if np.abs(XA - XA.conj().T).max() > tol * m * max(1.0, na * nx):
+        return 'X A not Hermitian'
+    return None
+
+
+def _blocks_ok(out, blocks, inv):
+    """-> None | (k, reason): every block judged against its own magnitude"""
+    if out.shape != blocks.shape:
+        return (-1, f'shape {out.shape} instead of {blocks.shape}')
+    for k in range(blocks.shape[0]):
+        if not inv:
+            if not rclose(out[k], blocks[k], 1e-13):
+                return (k, f'block {out[k].tolist()} differs from the dense slice {blocks[k].tolist()}')
+            continue
+        if blocks.shape[1] > 1:
+            sv = np.linalg.svd(blocks[k], compute_uv=False)
+            if ((sv > 1e-13 * sv.max()) & (sv < 0.02 * sv.max())).any():
+                continue       # assumption of the check: the non-zero singular values of a judged block exceed 0.05 ||block|| (a rank
+                #                deficient block whose entries were rounded by a decimal rescaling / summed duplicates is not judged)
+        ref = np.linalg.pinv(blocks[k], rcond=1e-9)
+        if blocks.shape[1] == 1:
+            a = blocks[k][0, 0]
+            ref = np.array([[0 if a == 0 else 1 / a]], dtype=blocks.dtype)
+            if not rclose_each(out[k], ref, 1e-13):
+                return (k, f'1 x 1 block {a!r}: pseudo-inverse {out[k][0, 0]!r} instead of 1/a = {ref[0, 0]!r}')
+            continue
+        if not rclose(out[k], ref, 1e-8):
+            return (k, f'block {blocks[k].tolist()}: expected pinv {ref.tolist()} got {out[k].tolist()}')
+        p = _penrose(blocks[k], out[k])
+        if p:
+            return (k, f'block {blocks[k].tolist()}: result {out[k].tolist()} fails the Penrose equation {p}')
+    return None
+
+
+def _ew_block(ctx, c, it):
+    U = _U()
+    A = build(c['A'])
+    fmt, bs = A.format, c['bs']
+    stored = tuple(A.blocksize) if fmt == 'bsr' else None
+    D = A.toarray()
+    n = D.shape[0]
+    nb = n // bs
+    it.nontrivial = n >= 2
+    blocks = np.array([D[k * bs:(k + 1) * bs, k * bs:(k + 1) * bs] for k in range(nb)])
+    snap = snapshot(A)
+    tag = f'{fmt}{list(stored) if stored else ""}, blocksize={bs}'
+    if c['fn'] == 'get_block_diag':
+        inv, h = c['inv'], c['history']
+        if h == 'inv_then_plain':
+            U.get_block_diag(A, bs, inv_flag=not inv)
+        elif h == 'twice':
+            U.get_block_diag(A, bs, inv_flag=inv)
+        elif h == 'other_bs_first':
+            ob = [b for b in (1, 2, 3, 4) if n % b == 0 and b != bs]
+            if ob:
+                U.get_block_diag(A, ob[-1], inv_flag=inv)
+        out = np.array(U.get_block_diag(A, bs, inv_flag=inv))
+        bad = _blocks_ok(out, blocks, inv)
+        if bad:
+            ctx.violation(f'get_block_diag({tag}, inv_flag={inv}, history={h}, block scales {c["scales"]}): diagonal block {bad[0]}: {bad[1]}', c)
+        if not close(A.toarray(), D, 0):
+            ctx.violation('get_block_diag changed the value of its input', c)
+    else:
+        S, Dinv = U.scale_block_inverse(A, bs)
+        Sd, Dd = S.toarray(), Dinv.toarray()
+        if Sd.shape != D.shape or Dd.shape != D.shape:
+            ctx.violation(f'scale_block_inverse({tag}): result shapes {Sd.shape}, {Dd.shape}', c)
+            return
+        got = np.array([Dd[k * bs:(k + 1) * bs, k * bs:(k + 1) * bs] for k in range(nb)])
+        off = Dd.copy()
+        for k in range(nb):
+            off[k * bs:(k + 1) * bs, k * bs:(k + 1) * bs] = 0
+        bad = _blocks_ok(got, blocks, True)
+        if bad or off.any():
+            ctx.violation(f'scale_block_inverse({tag}, block scales {c["scales"]}): the returned D^-1 is not the block diagonal pseudo-inverse: '
+                          f'{"entries outside the block diagonal" if not bad else f"block {bad[0]}: {bad[1]}"}', c)
+            return
+        Dref = np.zeros_like(D)
+        for k in range(nb):
+            Dref[k * bs:(k + 1) * bs, k * bs:(k + 1) * bs] = np.linalg.pinv(blocks[k], rcond=1e-9)
+        ref = Dref @ D
+        for k in range(nb):
+            rows = slice(k * bs, (k + 1) * bs)
+            sc = float(np.abs(Dref[rows]).max() * np.abs(D[rows]).max()) * bs
+            if not rclose(Sd[rows], ref[rows], 1e-8, ref=max(sc, float(np.abs(ref[rows]).max()))):
+                ctx.violation(f'scale_block_inverse({tag}, block scales {c["scales"]}): block row {k} of D^-1 A: expected {ref[rows].tolist()} '
+                              f'got {Sd[rows].tolist()}', c)
+                break
+        if snapshot(A) != snap:
+            ctx.violation(f'scale_block_inverse({fmt}) modified its input', c)
+
+
+def _ew_filterop(ctx, c, it):
+    U = _U()
+    A, C = build(c['A']), build(c['C'])
+    cplx = c['A']['complex']
+    nd = c['nd']
+    n, m = A.shape
+    B = _decv(c['B'], cplx).reshape(m, nd)
+    Bf = _decv(c['Bf'], cplx).reshape(n, nd)
+    rpb, cpb = A.blocksize if A.format == 'bsr' else (1, 1)
+    nbr = n // rpb
+    DA = A.toarray()
+    pat = [sorted(set(C.indices[C.indptr[i]:C.indptr[i + 1]].tolist())) for i in range(nbr)]
+    mask = np.zeros((n, m), dtype=bool)
+    for i in range(nbr):
+        for jb in pat[i]:
+            mask[i * rpb:(i + 1) * rpb, jb * cpb:(jb + 1) * cpb] = True
+    snapA, snapC, B0, Bf0 = snapshot(A), snapshot(C), B.copy(), Bf.copy()
+    Zc = np.array(U.compute_BtBinv(B, C))
+    Z = U.compute_BtBinv(B, C) if c['given'] else None
+    Bin, Bfin = (B.ravel(), Bf.ravel()) if c.get('flat') else (B, Bf)
+    F = U.filter_operator(A, C, Bin, Bfin, BtBinv=Z)
+    tag = f'{A.format} blocks {rpb}x{cpb}, {nd} candidate(s), scales A, B, Bf = {c["scales"]}'
+    if not sp.issparse(F) or F.shape != A.shape or F.format != A.format:
+        ctx.violation(f'filter_operator: result {getattr(F, "format", type(F).__name__)} {getattr(F, "shape", None)}', c)
+        return
+    Fd = F.toarray()
+    if (Fd[~mask] != 0).any():
+        ctx.violation(f'filter_operator ({tag}): entries outside the pattern of C: {Fd.tolist()} pattern {mask.astype(int).tolist()}', c)
+        return
+    if snapshot(A) != snapA or snapshot(C) != snapC or not np.array_equal(B, B0) or not np.array_equal(Bf, Bf0):
+        ctx.violation('filter_operator / compute_BtBinv modified one of its arguments', c)
+    if Zc.shape != (nbr, nd, nd):
+        ctx.violation(f'compute_BtBinv: result shape {Zc.shape}, expected {(nbr, nd, nd)}', c)
+        return
+    Am = np.where(mask, DA, 0)
+    E = Fd @ B - Bf
+    good = 0
+    for i in range(nbr):
+        cols = [jb * cpb + s for jb in pat[i] for s in range(cpb)]
+        if not cols:
+            continue
+        BJ = B[cols]
+        G = BJ.conj().T @ BJ
+        sv = np.linalg.svd(G, compute_uv=False)
+        if sv.min() <= 1e-6 * sv.max() or sv.min() == 0:
+            continue
+        good += 1
+        Gi = np.linalg.inv(G)
+        rows = slice(i * rpb, (i + 1) * rpb)
+        corr = (Am[rows] @ B - Bf[rows]) @ Gi @ BJ.conj().T
+        size = float(np.abs(Bf[rows]).max() + (np.abs(Am[rows]).max() + np.abs(corr).max()) * np.abs(B).max() * m)
+        if np.abs(E[rows]).max() > 1e-8 * size:
+            ctx.violation(f'filter_operator ({tag}): block row {i} allows the constraint (B_J^H B_J invertible, singular values {sv.tolist()}) but '
+                          f'(A_f B - Bf) = {E[rows].tolist()} with Bf = {Bf[rows].tolist()}', c)
+            return
+        ref = Am[rows][:, cols] - corr
+        if not rclose(Fd[rows][:, cols], ref, 1e-8, ref=max(1e-300, float(np.abs(Am[rows]).max()), float(np.abs(corr).max()))):
+            ctx.violation(f'filter_operator ({tag}): block row {i} is not the l2-projection of the masked row: expected {ref.tolist()} '
+                          f'got {Fd[rows][:, cols].tolist()}', c)
+            return
+        # the array the projection is built from (an argument of filter_operator in its own right): inv(B_J^H B_J)
+        if sv.min() > 1e-3 * sv.max() and not rclose(Zc[i], Gi, 1e-8):
+            ctx.violation(f'compute_BtBinv ({tag}): block row {i}: B_J^H B_J = {G.tolist()} is invertible (singular values {sv.tolist()}) but the '
+                          f'returned block is {Zc[i].tolist()}, expected {Gi.tolist()}', c)
+            return
+    it.nontrivial = C.nnz >= 2 and good > 0
+
+
+def _ew_pinv(ctx, c, it):
+    from pyamg import amg_core
+    cplx, bs, kind = c['complex'], c['bs'], c['kind']
+    blocks = _decv(c['blocks'], cplx).reshape(-1, bs, bs)
+    if c.get('dtype'):
+        blocks = blocks.astype(c['dtype'])
+    it.nontrivial = blocks.size >= 2
+    if kind == 'py':
+        from pyamg.util.linalg import pinv_array
+        out = blocks.copy()
+        if pinv_array(out) is not None:
+            ctx.violation('linalg.pinv_array returned something (documented: in place)', c)
+        if bs == 1:
+            # 1 x 1: the pseudo-inverse is 1/a, whatever the magnitude of a, and 0 for a = 0 (the working precision decides the rounding)
+            one = blocks.dtype.type(1)
+            with np.errstate(all='ignore'):
+                ref = np.array([[[0 if b[0, 0] == 0 else one / b[0, 0]]] for b in blocks], dtype=blocks.dtype)
+            eps = float(np.finfo(blocks.dtype).eps)
+            if out.dtype != blocks.dtype or not rclose_each(out, ref, 0.0 if not cplx else 8 * eps):
+                ctx.violation(f'linalg.pinv_array of 1 x 1 blocks {blocks.ravel().tolist()} ({blocks.dtype}): expected 1/a = {ref.ravel().tolist()} '
+                              f'got {out.ravel().tolist()}', c)
+            return
+    else:
+        a = np.ascontiguousarray(blocks if c['trans'] == 'T' else blocks.transpose(0, 2, 1)).ravel().copy()
+        amg_core.pinv_array(a, blocks.shape[0], bs, c['trans'])
+        out = a.reshape(-1, bs, bs)
+    bad = _blocks_ok(out, blocks, True)
+    if bad:
+        ctx.violation(f'{"linalg" if kind == "py" else "amg_core"}.pinv_array ({c["trans"] if kind != "py" else "-"}, block scales {c["scales"]}): '
+                      f'block {bad[0]}: {bad[1]}', c)
+
+
+_EW = {'scale': _ew_scale, 'diag': _ew_diag, 'symresc': _ew_symresc, 'filter': _ew_filter, 'block': _ew_block, 'filterop': _ew_filterop,
+       'pinv': _ew_pinv}
+
+
+def eval_wide(ctx, c, feats=()):
+    it = Item('wide:' + c['sub'], c, _key('wide', c), feats=feats)
+    try:
+        with warnings.catch_warnings():
+            warnings.simplefilter('ignore')
+            _EW[c['sub']](ctx, c, it)
+    except Exception as e:
+        what = {'scale': 'scale_' + str(c.get('which')), 'diag': 'get_diagonal', 'symresc': 'symmetric_rescaling', 'filter': str(c.get('kind')) + ' filter',
+                'block': str(c.get('fn')), 'filterop': 'filter_operator / compute_BtBinv', 'pinv': 'pinv_array'}[c['sub']]
+        A = c.get('A') or {}
+        ctx.violation(f'{what} on {A.get("fmt", "blocks")}{A.get("blocksize", "")} (requested block size {c.get("bs")}, scales {c.get("scales")}) '
+                      f'raised {type(e).__name__}: {e}', c)
+    return it
+
+
+# ------------------------------------------------------------------------------------------------
 # driver
 # ------------------------------------------------------------------------------------------------
 
 PARTS = {'scale': (gen_scale, eval_scale), 'diag': (gen_diag, eval_diag), 'symresc': (gen_symresc, eval_symresc),
          'filter': (gen_filter, eval_filter), 'block': (gen_block, eval_block), 'filterop': (gen_filterop, eval_filterop),
-         'kernel': (gen_kernel, eval_kernel)}
+         'kernel': (gen_kernel, eval_kernel), 'wide': (gen_wide, eval_wide)}
 
 
 class _RecCtx:
@@ -2169,6 +2836,7 @@ def run(ctx):
     part_spectral(ctx, q(240, 4000))
     part_cond(ctx, q(300, 6000))
     part_arnoldi(ctx, q(240, 4000))
+    part_e52(ctx, q(320, 8000))
     _order(ctx)
 
 
@@ -2185,6 +2853,7 @@ def search(ctx):
     part_spectral(ctx, 600)
     part_cond(ctx, 1000)
     part_arnoldi(ctx, 600)
+    part_e52(ctx, 1200)
     _order(ctx)
 
 
@@ -2210,6 +2879,16 @@ def replay(ctx, data):
             print(f'cycle {k}: flag {cl["flag"]}, {cl["m"]} columns, comparison with the model:', _arn_compare(cl, opm, o))
             print('  H (code) =', cl['H'][:cl['m'] + 1, :cl['m']].tolist())
         print('returned value:', res)
+    elif op == 'e52':
+        calls, opm, res = _e52_run(case)
+        line, info = _e52_line(case, calls, opm)
+        o = _lean(ctx, [line])[0]
+        print('mode', case['mode'], 'kind', case['kind'], 'n', case['n'], 'result of the code:', repr(res)[:300])
+        for k, cl in enumerate(calls):
+            print(f'  call {k}: flag {cl["flag"]}, {cl["m"]} columns, |ev| =', np.abs(cl['ev']).tolist())
+        print('model reply:', o[:600])
+        print('comparison with the model:', _e52_judge(ctx, case, calls, opm, res, info, o))
+        _e52_property(ctx, case, calls, opm, res)
     elif op == 'condest':
         from pyamg.util import linalg as L
         n = case['n']
